@@ -154,6 +154,8 @@ def axioms():
     ax('nodup_def', ForAll([s], nodup(s) == ForAll([i, j], Implies(And(0 <= i, i < j, j < slen(s)), at(s, i) != at(s, j)),
                                                    patterns=[MultiPattern(at(s, i), at(s, j))]),
                            patterns=[nodup(s)]))
+    ax('nodup_snoc', ForAll([s, x], nodup(snoc(s, x)) == And(nodup(s), Not(mem(s, x))), patterns=[nodup(snoc(s, x))]))
+    ax('nodup_empty', nodup(seq_empty))
     ax('remove_tag', ForAll([s, x], tag(seq_remove(s, x)) == TAG_SEQ, patterns=[seq_remove(s, x)]))
     ax('remove_mem', ForAll([s, x, y], Implies(nodup(s), mem(seq_remove(s, x), y) == And(mem(s, y), y != x)),
                             patterns=[mem(seq_remove(s, x), y)]))
